@@ -18,6 +18,7 @@
 #include <set>
 #include <unordered_map>
 #include <algorithm>
+#include <iterator>
 #include <unistd.h>
 
 // ---- allocation ledger ---------------------------------------------------
@@ -72,6 +73,7 @@ inline void ledger_segment_end(Ledger &l, int z) {
     fprintf(l.file, "],\"ev\":[");
     for (size_t i = 0; i < l.events.size(); ++i) fprintf(l.file, i ? ",%ld" : "%ld", l.events[i]);
     fprintf(l.file, "]}\n");
+    fflush(l.file);   // a later crash must not cut a line
     l.events.clear();
 }
 inline void scope_begin(long id) {
@@ -90,6 +92,11 @@ inline void scope_end(int z) {
     if (l.file == nullptr || !l.scope_open) return;
     l.enabled = false;
     ledger_segment_end(l, z);
+    if (l.case_scoped && l.live.size() != l.base0.size()) {
+        // what this scope leaked has been reported with it: forget it, so that the next scopes start from the same base
+        std::set<long> keep(l.base0.begin(), l.base0.end());
+        for (auto it = l.live.begin(); it != l.live.end();) it = keep.count(it->second) ? std::next(it) : l.live.erase(it);
+    }
     l.scope_open = false;
     l.log        = false;
     l.enabled    = true;
